@@ -329,6 +329,9 @@ impl Decoder {
             }
             v => err!(other!("unsupported V value {}", v)),
         };
+        if key_bits == 0 {
+            err!(other!("invalid key length 0"));
+        }
         let level = dict.r;
         if !(2..=6).contains(&level) {
             err!(other!("unsupported standard security handler revision {}", level))
